@@ -30,11 +30,12 @@ import (
 func init() { verifChecks["C13"] = runC13 }
 
 type c13Scenario struct {
-	name  string
-	seed  string
-	stmts []string // statement kinds: create|insert1|insert9|update|delete|select
-	ticks int
-	cache int // > 0: the seed is flushed and the page cache replaced by an empty one of this capacity
+	name      string
+	seed      string
+	stmts     []string // statement kinds: create|insert1|insert9|update|delete|select
+	ticks     int
+	cache     int  // > 0: the seed is flushed and the page cache replaced by an empty one of this capacity
+	locksOnly bool // scheduling points only at lock operations, header writes and statement boundaries
 }
 
 func c13Stmt(w *world, kind string) stmt {
@@ -45,6 +46,8 @@ func c13Stmt(w *world, kind string) stmt {
 		return mkInsert(w.model, "t1", 1, false)
 	case "insert9":
 		return mkInsert(w.model, "t1", 9, false)
+	case "insert1200":
+		return mkInsert(w.model, "t1", 1200, false)
 	case "update":
 		return mkUpdate(w.model, "t1", seqPred{"<=", w.model.Tables["t1"].Inserted / 2})
 	case "delete":
@@ -64,30 +67,33 @@ func runC13(env *lib.Env, rep *lib.Report) {
 	}
 	bound := 2
 	scenarios := []c13Scenario{
-		{"insert1", "t1x8", []string{"insert1"}, 2, 0},
-		{"insert9", "t1x8", []string{"insert9"}, 2, 0},
-		{"update", "t1x8", []string{"update"}, 2, 0},
-		{"delete", "t1x8", []string{"delete"}, 2, 0},
-		{"select", "t1x8", []string{"select"}, 2, 0},
-		{"create", "t1x8", []string{"create"}, 2, 0},
-		{"insert1;delete;select", "t1x8", []string{"insert1", "delete", "select"}, 1, 0},
+		{"insert1", "t1x8", []string{"insert1"}, 2, 0, false},
+		{"insert9", "t1x8", []string{"insert9"}, 2, 0, false},
+		{"update", "t1x8", []string{"update"}, 2, 0, false},
+		{"delete", "t1x8", []string{"delete"}, 2, 0, false},
+		{"select", "t1x8", []string{"select"}, 2, 0, false},
+		{"create", "t1x8", []string{"create"}, 2, 0, false},
+		{"insert1;delete;select", "t1x8", []string{"insert1", "delete", "select"}, 1, 0, false},
 		// a page cache too small for the statement's dirty set: the statement must be refused (or fit), never
 		// make room by writing pages in the middle of the statement
-		{"insert9/cache3", "t1x8", []string{"insert9"}, 1, 3},
-		{"insert9/cache4", "t1x8", []string{"insert9"}, 1, 4},
-		{"insert9/cache5", "t1x8", []string{"insert9"}, 1, 5},
-		{"insert9/cache6", "t1x8", []string{"insert9"}, 1, 6},
-		{"insert9;insert9/cache8", "t1x8", []string{"insert9", "insert9"}, 1, 8},
+		{"insert9/cache3", "t1x8", []string{"insert9"}, 1, 3, false},
+		{"insert9/cache4", "t1x8", []string{"insert9"}, 1, 4, false},
+		{"insert9/cache5", "t1x8", []string{"insert9"}, 1, 5, false},
+		{"insert9/cache6", "t1x8", []string{"insert9"}, 1, 6, false},
+		{"insert9;insert9/cache8", "t1x8", []string{"insert9", "insert9"}, 1, 8, false},
+		// one statement with more than a thousand row operations: however it is processed internally, the lock is
+		// held from its first change to the end of its log append
+		{"insert1200/lock-points", "t1x8", []string{"insert1200"}, 2, 0, true},
 	}
 	if env.Thorough() {
 		bound = 3
 		scenarios = append(scenarios,
-			c13Scenario{"insert1;delete;select/2", "t1x8", []string{"insert1", "delete", "select"}, 2, 0},
-			c13Scenario{"update;insert9", "t1x8", []string{"update", "insert9"}, 2, 0},
-			c13Scenario{"insert1;create;insert1", "t1x8", []string{"insert1", "create", "insert1"}, 2, 0},
-			c13Scenario{"insert9;update;delete", "t1x8", []string{"insert9", "update", "delete"}, 3, 0},
-			c13Scenario{"interleaved:insert9;select;insert1", "interleaved", []string{"insert9", "select", "insert1"}, 3, 0},
-			c13Scenario{"delete;insert9;create", "t1x8", []string{"delete", "insert9", "create"}, 3, 0})
+			c13Scenario{"insert1;delete;select/2", "t1x8", []string{"insert1", "delete", "select"}, 2, 0, false},
+			c13Scenario{"update;insert9", "t1x8", []string{"update", "insert9"}, 2, 0, false},
+			c13Scenario{"insert1;create;insert1", "t1x8", []string{"insert1", "create", "insert1"}, 2, 0, false},
+			c13Scenario{"insert9;update;delete", "t1x8", []string{"insert9", "update", "delete"}, 3, 0, false},
+			c13Scenario{"interleaved:insert9;select;insert1", "interleaved", []string{"insert9", "select", "insert1"}, 3, 0, false},
+			c13Scenario{"delete;insert9;create", "t1x8", []string{"delete", "insert9", "create"}, 3, 0, false})
 	}
 	var names []string
 	for _, s := range scenarios {
@@ -118,6 +124,7 @@ func runC13(env *lib.Env, rep *lib.Report) {
 			storage.VerifReplaceCache(w.sess.RelationService, sc.cache)
 		}
 		sched := storage.VerifNewSched(func(n int, label string, cost []int) int { return c.ChooseCost(n, label, cost) }, sc.ticks)
+		sched.LocksOnly = sc.locksOnly
 		hasCreate := false
 		var execErr error
 		var failedSQL string
